@@ -378,6 +378,10 @@ pub fn check_cmd(args: CheckArgs) -> i32 {
         let n_kplus = kp.iter().filter(|&&b| b).count();
         let mut cover_bases: Vec<(&Entry, bool)> = corpus.k0.iter().map(|e| (e, true)).collect();
         for (gi, e) in corpus.g.iter().enumerate() {
+            // covers of the 5- and 6-chamber extras only in the thorough tier
+            if gi >= corpus.extra_from && tier != Tier::Thorough {
+                continue;
+            }
             if kp[gi] || census_g[gi].interesting() {
                 cover_bases.push((e, kp[gi]));
             }
